@@ -244,7 +244,7 @@ func (e *FnEnc) define(name, sort, term string) string {
 		bail("define of tuple sort")
 	}
 	e.decls = append(e.decls, fmt.Sprintf("(define-fun %s () %s %s)", name, sort, term))
-	if sort == "Int" || sort == "Iface" || strings.HasPrefix(sort, "S_") {
+	if sort == "Int" || sort == "Iface" || sort == "Slice" || strings.HasPrefix(sort, "S_") || strings.HasPrefix(sort, "(Array") {
 		// remember which fresh references a named value may denote (for escape tracking)
 		if refs := e.freshIn(term); len(refs) > 0 {
 			if e.refAlias == nil {
@@ -260,6 +260,9 @@ var nameTokRe = regexp.MustCompile(`[A-Za-z_][A-Za-z0-9_.!@$#]*`)
 
 // freshIn: the fresh references "(- k)" a term mentions directly or through named values.
 func (e *FnEnc) freshIn(term string) []string {
+	// a reference that only occurs as the ADDRESS of a memory read, (select H (- k)), is not
+	// part of the value: drop select subterms before looking
+	term = stripSelects(term)
 	seen := map[string]bool{}
 	var out []string
 	for _, r := range freshRefRe.FindAllString(term, -1) {
@@ -322,7 +325,7 @@ func (e *FnEnc) typeInv(term string, t types.Type, depth int) string {
 			fmt.Sprintf("(bvsle #x0000000000000000 (sl-off %s))", term),
 			fmt.Sprintf("(bvsle (sl-off %s) #x0000ffffffffffff)", term),
 			fmt.Sprintf("(bvsle (sl-cap %s) #x0000ffffffffffff)", term),
-			fmt.Sprintf("(>= (sl-ref %s) 0)", term),
+			e.refInv(fmt.Sprintf("(sl-ref %s)", term)),
 			fmt.Sprintf("(=> (= (sl-ref %s) 0) (= (sl-cap %s) #x0000000000000000))", term, term),
 		)
 	case *types.Struct:
@@ -338,15 +341,19 @@ func (e *FnEnc) typeInv(term string, t types.Type, depth int) string {
 	case *types.Interface:
 		return e.ifaceInv(term)
 	case *types.Pointer, *types.Map:
-		// a reference obtained from memory or from a callee is an object that existed
-		// before this activation's own allocations (>= 0) or one of those that escaped
-		ds := []string{fmt.Sprintf("(>= %s 0)", term)}
-		for _, r := range e.escapedRefs {
-			ds = append(ds, fmt.Sprintf("(= %s %s)", term, r))
-		}
-		return or(ds...)
+		return e.refInv(term)
 	}
 	return "true"
+}
+
+// refInv: a reference obtained from memory or from a callee is an object that existed
+// before this activation's own allocations (>= 0) or one of those that escaped.
+func (e *FnEnc) refInv(term string) string {
+	ds := []string{fmt.Sprintf("(>= %s 0)", term)}
+	for _, r := range e.escapedRefs {
+		ds = append(ds, fmt.Sprintf("(= %s %s)", term, r))
+	}
+	return or(ds...)
 }
 
 // ifaceInv: payload invariants for the registered dynamic types are added lazily by
@@ -1164,6 +1171,11 @@ func (f *frame) loopHead(li *loopInfo) {
 		c := f.evalContractBool(inv, f.curHeap, nil, nil)
 		f.oblige(fmt.Sprintf("inv.init@%d.%d", li.ord, i+1), "", c, inv.Text, token.NoPos)
 	}
+	// the function's frame clauses are loop invariants of every loop (proved like any other)
+	hasFrame := f.contract != nil && (len(f.contract.Preserves) > 0 || len(f.contract.OnlyAt) > 0) && f.parent == nil
+	if hasFrame {
+		f.frameOblige(fmt.Sprintf("inv.init@%d.frame", li.ord), "", "frame clauses (preserves / writes_only_at) hold at the loop head", f.curHeap, token.NoPos)
+	}
 	// built-in invariant of go/ssa's range-over-slice loops (proved like any other)
 	for _, in := range b.Instrs {
 		if phi, ok := in.(*ssa.Phi); ok {
@@ -1188,6 +1200,10 @@ func (f *frame) loopHead(li *loopInfo) {
 	// havoc heap arrays written in the loop
 	f.inLoopHavoc = true
 	defer func() { f.inLoopHavoc = false }()
+	// keys that every call with unknown effects inside the loop declares preserved (and
+	// that nothing else in the loop writes) keep their value at the head
+	keepKeys := f.loopPreserved(li)
+	preHavoc := f.curHeap.clone()
 	for _, key := range f.loopWrites(li) {
 		if key == "*" {
 			f.havocAllHeap()
@@ -1210,10 +1226,20 @@ func (f *frame) loopHead(li *loopInfo) {
 		}
 		f.curHeap[key] = e.declare(e.fresh(key), sortS)
 	}
+	for _, ks := range keepKeys {
+		if v, ok := preHavoc[ks[0]]; ok && !strings.HasPrefix(v, "?") {
+			f.curHeap[ks[0]] = v
+		} else {
+			f.curHeap[ks[0]] = e.heapGet(preHavoc, ks[0], ks[1])
+		}
+	}
 	for i, inv := range invs {
 		_ = i
 		c := f.evalContractBool(inv, f.curHeap, nil, nil)
 		f.assume(c)
+	}
+	if hasFrame {
+		f.assume(f.preservedCond(f.curHeap))
 	}
 	// snapshot of the state at the head of this iteration: athead(k, e) in inner invariants
 	if f.headHeaps == nil {
@@ -1249,6 +1275,9 @@ func (f *frame) backEdge(from, head *ssa.BasicBlock, succIdx int) {
 		c := f.evalContractBool(inv, f.curHeap, nil, nil)
 		f.oblige(fmt.Sprintf("inv.preserve@%d.%d", li.ord, i+1), "", c, inv.Text, token.NoPos)
 	}
+	if f.contract != nil && (len(f.contract.Preserves) > 0 || len(f.contract.OnlyAt) > 0) && f.parent == nil {
+		f.frameOblige(fmt.Sprintf("inv.preserve@%d.frame", li.ord), "", "frame clauses (preserves / writes_only_at) hold at the loop head", f.curHeap, token.NoPos)
+	}
 	for _, in := range head.Instrs {
 		if phi, ok := in.(*ssa.Phi); ok {
 			if inv := f.rangeInv(li, phi, f.vals[phi].term); inv != "" {
@@ -1261,6 +1290,77 @@ func (f *frame) backEdge(from, head *ssa.BasicBlock, succIdx int) {
 		f.vals[k] = v
 	}
 	f.curPC, f.curHeap = savePC, saveHeap
+}
+
+// loopPreserved: heap keys that survive the loop although it contains calls with unknown
+// effects ("*", "*dyn"): every such call goes to a callee (or slot) whose contract lists
+// the key under preserves, and no instruction of the loop writes the key otherwise.
+func (f *frame) loopPreserved(li *loopInfo) [][2]string {
+	E := f.enc.E
+	var common map[string][2]string
+	direct := map[string]bool{}
+	for _, b := range f.fn.Blocks {
+		if !li.blocks[b.Index] {
+			continue
+		}
+		for _, in := range b.Instrs {
+			w := map[string]bool{}
+			E.instrWrites(f.enc, in, w)
+			if !w["*"] && !w["*dyn"] {
+				for k := range w {
+					direct[k] = true
+				}
+				continue
+			}
+			var fc *FuncContract
+			var pkg *types.Package
+			if ci, ok := in.(ssa.CallInstruction); ok {
+				c := ci.Common()
+				if callee := c.StaticCallee(); callee != nil && callee.Pkg != nil {
+					fc, pkg = E.CS.Funcs[funcKey(callee)], callee.Pkg.Pkg
+				} else if callee == nil {
+					if fc = f.slotContract(c); fc != nil {
+						pkg = E.typesPkg(fc.Pkg)
+					}
+				}
+			}
+			if fc == nil || len(fc.Preserves) == 0 || pkg == nil {
+				return nil
+			}
+			mine := map[string][2]string{}
+			for _, ks := range f.enc.fieldKeys(fc.Preserves, pkg) {
+				mine[ks[0]] = ks
+			}
+			if common == nil {
+				common = mine
+			} else {
+				for k := range common {
+					if _, ok := mine[k]; !ok {
+						delete(common, k)
+					}
+				}
+			}
+			for k := range w {
+				if k != "*" && k != "*dyn" {
+					if _, ok := mine[k]; !ok {
+						direct[k] = true
+					}
+				}
+			}
+		}
+	}
+	var out [][2]string
+	var names []string
+	for k := range common {
+		names = append(names, k)
+	}
+	sort.Strings(names)
+	for _, k := range names {
+		if !direct[k] {
+			out = append(out, common[k])
+		}
+	}
+	return out
 }
 
 // loopWrites: heap keys possibly written inside the loop ("*" = everything).
@@ -1316,6 +1416,9 @@ func (f *frame) restoreLocals(old Heap, only map[string]bool) {
 	e := f.enc
 	for fr := f; fr != nil; fr = fr.parent {
 		for _, la := range fr.locals {
+			if e.escapedSeen[la.ref] {
+				continue // visible to other code by now
+			}
 			var keys [][2]string
 			switch u := la.t.Underlying().(type) {
 			case *types.Struct:
@@ -1380,4 +1483,30 @@ func (e *FnEnc) constArray(sort, val string) string {
 		return e.declare(e.fresh("zeroarr"), sort)
 	}
 	return fmt.Sprintf("((as const %s) %s)", sort, val)
+}
+
+// stripSelects removes every balanced "(select ...)" subterm from an SMT term.
+func stripSelects(t string) string {
+	for {
+		i := strings.Index(t, "(select ")
+		if i < 0 {
+			return t
+		}
+		depth := 0
+		j := i
+		for ; j < len(t); j++ {
+			if t[j] == '(' {
+				depth++
+			} else if t[j] == ')' {
+				depth--
+				if depth == 0 {
+					break
+				}
+			}
+		}
+		if j >= len(t) {
+			return t[:i]
+		}
+		t = t[:i] + "?" + t[j+1:]
+	}
 }
